@@ -589,7 +589,9 @@ fn spaces(tier: Tier) -> Vec<Space> {
             }
         }
     }
-    let lens: Vec<u64> = vec![0, 1, 2, 3, 126, 127, 128, 129, 255, 256, 16382, 16383, 16384, 16385, 32767, 32768, 32769, 49151, 49152, 49153, 65534, 65535, 65536, 65537, 70000, 81919, 81920, 131071, 131072, 200000];
+    let lens: Vec<u64> = vec![0, 1, 2, 3, 126, 127, 128, 129, 255, 256, 16382, 16383, 16384, 16385, 32767, 32768, 32769, 49151, 49152, 49153, 65534, 65535, 65536, 65537, 70000, 81919, 81920, 131071, 131072, 200000,
+        // where the number of 16K blocks no longer fits 8 bits (256 x 16K = 4 MiB), 16 bits, 32 bits
+        4194303, 4194304, 4194305, 4210688, 4210689, 8388608, 1073741824, 4294967296, 4294967296 + 49152, 1 << 46];
     for &n in &lens {
         c.push(Prim::Length { lb: None, ub: None, n });
         for lb in [0u64, 1, 2, 65535] {
@@ -627,7 +629,7 @@ fn spaces(tier: Tier) -> Vec<Space> {
     out.push(Space { name: "indices", cases: c });
     // 6. octet strings and bit strings
     let sizes: Vec<u64> = if t {
-        vec![0, 1, 2, 3, 127, 128, 16383, 16384, 16385, 32767, 32768, 49152, 65535, 65536, 65537, 81919, 81920, 131071, 131072, 131073, 200000]
+        vec![0, 1, 2, 3, 127, 128, 16383, 16384, 16385, 32767, 32768, 49152, 65535, 65536, 65537, 81919, 81920, 131071, 131072, 131073, 200000, 4194303, 4194304, 4194305 + 16384]
     } else {
         vec![0, 1, 2, 127, 128, 16383, 16384, 16385, 32768, 65535, 65536, 65537, 81920]
     };
